@@ -92,6 +92,18 @@ func c13World(t *testing.T, r *simcore.Run) any {
 	srvDSCP := uint8([]int{0, 0, 10, 46, 63}[tp.Intn(5, "sdscp")])
 	cliDSCP := uint8([]int{0, 0, 10, 46, 1}[tp.Intn(5, "cdscp")])
 	forwarder := tp.Bool(1, 3, "forwarder")
+	if forwarder && tp.Bool(1, 2, "fwd-rxmiss") {
+		// the forwarder's kernel receive timestamp goes missing now and then: it then has no
+		// timestamp option to add, and relays the packet - extensions and all - as it came
+		fwdPlan := w.net.Plan
+		fwdPlan.RxStampMissing = uint64(100 + tp.Intn(500, "fwd-rxmiss-rate"))
+		w.net.PlanFor = func(d *simnet.Datagram, at *simnet.UDPConn) *simnet.FaultPlan {
+			if at != nil && at.Host() == w.cli && at.Local().Port() == scEndhost {
+				return &fwdPlan
+			}
+			return nil
+		}
+	}
 	// a quarter of the runs carry NTS on top (the unusual but legal combination of NTS with
 	// SCION packet authentication): the packet authenticator's clauses hold regardless
 	useNTS := tp.Bool(1, 4, "nts")
